@@ -45,7 +45,7 @@ PROPS = {
         "explanation": "theorems decode_no_panic, decode_ok_head, decode_err_applies, decode_reencode + all 16 real decoders; oracle on the implementation's answer: no panic, value in the kind's domain (raw-byte check for message values), reason validated by the Lean predicate cappliesB, accepted values re-encode and decode to themselves",
     },
     "C06": {
-        "groups": {"rx_usart": Q(80000, 600000), "rx_serial": Q(80000, 600000), "rx_can": Q(80000, 600000)},
+        "groups": {"rx_usart": Q(60000, 600000), "rx_serial": Q(60000, 600000), "rx_can": Q(60000, 600000)},
         "rule": "hostile receive histories per link: arbitrary bodies, interrupted packets of the same/other device and opposite error type, zero-length frames, line noise, swapped/duplicated/corrupted frames (incl. the length byte), declared length > 8, 200..255-byte bodies, foreign CAN frames, then two probe packets; would-blocks between bytes/frames; distinct by input text; non-trivial = at least 3 polls returned something other than 'nothing'",
         "explanation": "theorems run_resync, usart_resync, can_resync, serial_resync + the real receivers drained call by call; compared: every poll result and the number of device items left after every call; oracle on the implementation's answer: no panic, no spin, second probe delivered last, nothing delivered that the model does not deliver",
     },
